@@ -128,13 +128,32 @@ func (w *World) emit(sender *Node, to int, bcast bool, data []byte) {
 		cp := *m
 		cp.Data = append([]byte(nil), m.Data...)
 		w.sendByz(b, &cp)
-	case 4: // malformed
-		w.corrupt(b, m)
-		w.fault("byz.malformed." + m.Kind)
-		w.sendByz(b, m)
-	case 5: // well-formed but inconsistent
-		w.replace(b, m)
-		w.fault("byz.inconsistent." + m.Kind)
+	case 4, 5:
+		if action == 4 { // malformed
+			w.corrupt(b, m)
+			w.fault("byz.malformed." + m.Kind)
+		} else { // well-formed but inconsistent
+			w.replace(b, m)
+			w.fault("byz.inconsistent." + m.Kind)
+		}
+		if w.c.Bool(1, 3, "byz.alsohold") {
+			// composite behaviour: the bad message is moreover sent later in the round (e.g. a
+			// malformed vector broadcast after an unsolicited answer)
+			w.fault("byz.heldback." + m.Kind)
+			b.held = append(b.held, m)
+			r := w.maxRound
+			if sender.round > r {
+				r = sender.round
+			}
+			if r < 1 {
+				r = 1
+			}
+			if r <= 3 {
+				w.script[r] = append(w.script[r], b.idx)
+			}
+			w.ev("byz %d holds back the %s %s to %d", b.idx, m.Label, m.Kind, to)
+			break
+		}
 		w.sendByz(b, m)
 	}
 }
